@@ -29,7 +29,7 @@ class ProgGen(object):
             p_background=0.4, p_rule_background=0.4, p_outline=0.3, p_tag=0.35, p_wip=0.08,
             p_nonpass=0.3, outcomes=OUTCOMES, p_async=0.15, p_param_tag=0.3, p_table=0.1, p_doc=0.1,
             p_desc=0.15, tags=TAGS, allow_empty_containers=False, p_stepless=0.05, p_bg_param=0.0,
-            weights=None,
+            weights=None, p_empty_examples=0.15,
         )
         self.o.update(opts)
         self.ids = Counter()
@@ -134,7 +134,7 @@ class ProgGen(object):
         examples = []
         values = []
         for ei in range(nex):
-            nrows = r.randint(0 if r.random() < 0.15 else 1, o["max_rows"])
+            nrows = r.randint(0 if r.random() < o["p_empty_examples"] else 1, o["max_rows"])
             rows = []
             for ri in range(nrows):
                 v = "%sv%d" % (name.lower(), self.ids.next())
